@@ -33,9 +33,10 @@ class World:
         self.loop = P.fresh(seed)
         P.install_wire_labels()
         self.env = {'session_factory': lambda: P.RecSession('srv')}
+        rk = dict(rekey_bytes=cfg['rekey']) if cfg.get('rekey') else {}
         self.pair = P.Pair(self.loop, sopts=dict(window=win, max_pktsize=pkt,
-                                                 encoding=enc or None),
-                           copts=dict(encryption_algs=[cfg.get('cipher', 'aes128-gcm@openssh.com')]),
+                                                 encoding=enc or None, **rk),
+                           copts=dict(encryption_algs=[cfg.get('cipher', 'aes128-gcm@openssh.com')], **rk),
                            env=self.env)
         self.cs, self.ss = [], []
         self.cch, self.sch = [], []
@@ -293,6 +294,9 @@ def configs(tier):
     add('w4p2-2chan-pause', 4, 2, nchan=2, sizes=[5], maxwrites=1)
     add('w6p3-bytewise', 6, 3, sizes=[4], maxwrites=1, bytewise=1, pause=False)
     add('w8p4-writelines', 8, 4, sizes=[9], maxwrites=1, writelines=True, pause=False)
+    # key re-exchanges in mid-stream: both sides re-key every 300 bytes, a write queues more than that behind a
+    # running exchange (what was queued is sent after NEWKEYS and may start the next exchange at once)
+    add('w4096p128-rekey', 4096, 128, sizes=[100, 1500], maxwrites=2, maxbytes=4000, rekey=300, pause=False)
     if tier == 'thorough':
         for c in cfgs:
             # the small configurations go deeper (the state cap still applies)
